@@ -87,19 +87,25 @@ def merge(a: "V | None", b: "V | None") -> "V":
              local=local)
 
 
+_AN = [None]      # analyser currently running (observations are emitted where a read happens)
+
+
 def pure_of(*vals, extra_reads=()):
     reads = set(extra_reads)
     arg = False
+    deep = set()
     for v in vals:
         if v is None:
             continue
         reads |= v.reads
-        # an object consumed as a whole: its entire content is read ("path.*")
-        reads |= {a + ".*" for a in v.aliases}
+        # an object consumed as a whole: its entire content is read ("path.*") - observed here
+        deep |= {a + ".*" for a in v.aliases}
         if v.shallow is not None:
-            reads.add(v.shallow + ".*")
+            deep.add(v.shallow + ".*")
         arg = arg or v.arg
-    return V(reads=reads, arg=arg)
+    if deep and _AN[0] is not None:
+        _AN[0].emit(("obs", sorted(deep)))
+    return V(reads=reads | deep, arg=arg)
 
 
 def ref_of(*vals):
@@ -148,14 +154,20 @@ class Analyser:
 
     def cond_block(self, cond: V):
         blk = []
-        self.emit(("if", sorted(cond.reads), cond.arg, blk))
+        self.emit(("if", sorted(cond.reads), cond.arg, blk, []))
         self.blocks.append(blk)
 
+    def else_block(self):
+        """switch from the body of the innermost open conditional to its else branch"""
+        self.blocks.pop()
+        node = self.blocks[-1][-1]
+        self.blocks.append(node[4])
+
     def end_block(self):
-        blk = self.blocks.pop()
+        self.blocks.pop()
         # drop empty conditionals
         parent = self.blocks[-1]
-        if not blk and parent and parent[-1][0] == "if" and parent[-1][3] is blk:
+        if parent and parent[-1][0] == "if" and not parent[-1][3] and not parent[-1][4]:
             parent.pop()
 
     def write_attr(self, base: V, attr: str, val: V):
@@ -180,7 +192,11 @@ class Analyser:
     # ---------------------------------------------------------------- attribute access
     def getattr(self, base: V, attr: str) -> V:
         if attr in base.local:
-            return base.local[attr]
+            if not base.aliases:
+                return base.local[attr]
+            # may be the fresh object (local attribute) or the aliased one (attribute of self): both
+            stripped = V(reads=base.reads, arg=base.arg, aliases=base.aliases, classes=base.classes)
+            return merge(base.local[attr], self.getattr(stripped, attr))
         if base.is_class is not None:
             try:
                 raw = inspect.getattr_static(base.is_class, attr)
@@ -225,10 +241,12 @@ class Analyser:
             paths = {join(p, attr) for p in roots}
             if attr == "sql_dialect":
                 # SplinkDialect objects are immutable singletons: a value, not an aliasable object
+                self.emit(("obs", sorted(paths)))
                 return V(reads=paths | base.reads, arg=base.arg, classes=set(self.dialect_classes))
             classes = set()
             for p in paths:
                 classes |= set(self.types_of(p) or ())
+            self.emit(("obs", sorted(paths)))      # the attribute is read here
             if all(self.primitive(p) for p in paths) and not any(
                     k.startswith(p + ".") or k.startswith(p + "[") for p in paths for k in self.rawtypes):
                 # primitive (or never set) in every sample: an immutable value, not an aliasable object
@@ -249,7 +267,10 @@ class Analyser:
 
     def inline(self, fn, posargs, kwargs) -> V:
         """abstractly execute a python function of the splink package"""
-        fn = inspect.unwrap(fn) if hasattr(fn, "__wrapped__") and False else fn
+        if hasattr(fn, "__wrapped__"):
+            # decorators of the library (unsupported_splink_dialects) only raise for some dialects
+            self.assumed_pure.add("decorator around " + getattr(fn, "__qualname__", "?"))
+            fn = inspect.unwrap(fn)
         node = self.source_ast(fn)
         key = getattr(fn, "__qualname__", repr(fn))
         if node is None or len(self.stack) >= self.MAX_DEPTH or self.stack.count(key) >= 3:
@@ -324,11 +345,13 @@ class Analyser:
                 self.emit_mut(f"<unknown constructor {cls.__name__}>", fresh, src)
             return fresh
         # bound method
-        if f.bound is not None:
+        if f.bound is not None and not (f.func is not None and getattr(f.bound[0], "is_class", None) is not None):
             recv, name = f.bound
             return self.call_method(recv, name, posargs, kwargs, src)
         if f.func is not None:
             fn = f.func
+            if f.bound is not None:            # classmethod: the class is the first argument
+                posargs = [f.bound[0]] + list(posargs)
             mod = getattr(fn, "__module__", "") or ""
             if mod.split(".")[0] == PKG:
                 if not any(a.tainted() for a in allargs):
@@ -371,7 +394,7 @@ class Analyser:
             multi = len(impls) > 1
             for c, fn, is_static in impls:
                 if multi:
-                    self.cond_block(pure_of(recv))
+                    self.cond_block(ref_of(recv))
                 r = self.inline(fn, ([] if is_static else [recv]) + list(posargs), kwargs)
                 if multi:
                     self.end_block()
@@ -438,7 +461,30 @@ class Frame:
 
     # ---------------------------------------------------------------- statements
     def block(self, stmts):
-        for st in stmts:
+        an = self.an
+        for i, st in enumerate(stmts):
+            if isinstance(st, ast.If):
+                c = self.eval(st.test)
+                if c.sbool is not None:
+                    self.block(st.body if c.sbool else st.orelse)
+                    continue
+                rb, ro = self.has_return(st.body), self.has_return(st.orelse)
+                if rb or ro:
+                    rest = stmts[i + 1:]
+                    saved = dict(self.env)
+                    an.cond_block(c)
+                    self.block(st.body)
+                    if ro and not rb:
+                        self.block(rest)          # the else branch leaves: what follows belongs to the body
+                    env_a = self.env
+                    self.env = dict(saved)
+                    an.else_block()
+                    self.block(st.orelse)
+                    if rb:
+                        self.block(rest)          # the body leaves: what follows is the else branch
+                    an.end_block()
+                    self.env = self.merge_env(env_a, self.env)
+                    return
             self.stmt(st)
 
     def has_return(self, stmts):
@@ -485,18 +531,13 @@ class Frame:
             saved = dict(self.env)
             an.cond_block(c)
             self.block(st.body)
-            an.end_block()
             env_a = self.env
             self.env = dict(saved)
-            an.cond_block(c)
+            an.else_block()
             self.block(st.orelse)
             an.end_block()
             env_b = self.env
             self.env = self.merge_env(env_a, env_b)
-            if self.has_return(st.body) or self.has_return(st.orelse):
-                # what follows only happens on some paths
-                an.cond_block(c)
-                self.open_conds += 1
         elif isinstance(st, (ast.For, ast.AsyncFor)):
             it = self.eval(st.iter)
             if it.static is not None and isinstance(st.target, ast.Name):
@@ -580,6 +621,8 @@ class Frame:
         return out
 
     def elem_of(self, it: V) -> V:
+        if it.elem is None and it.aliases:
+            self.an.emit(("obs", sorted(p + "[*]" for p in it.aliases)))
         if it.elem is not None:
             e = it.elem
             return V(reads=e.reads | it.reads, arg=e.arg or it.arg, aliases=e.aliases, shallow=e.shallow, classes=e.classes,
@@ -685,8 +728,7 @@ class Frame:
             c = self.eval(node.test)
             an.cond_block(c)
             a = self.eval(node.body)
-            an.end_block()
-            an.cond_block(c)
+            an.else_block()
             b = self.eval(node.orelse)
             an.end_block()
             m = merge(a, b)
@@ -721,7 +763,7 @@ class Frame:
             opened = 0
             for gen in node.generators:
                 it = self.eval(gen.iter)
-                reads = pure_of(reads, it)
+                reads = ref_of(reads, it)        # iterating reads the container, not its elements' content
                 if it.static is not None and isinstance(gen.target, ast.Name) and len(node.generators) == 1 \
                         and isinstance(node, ast.ListComp) and isinstance(node.elt, ast.Name) and node.elt.id == gen.target.id:
                     names = list(it.static)
@@ -735,7 +777,7 @@ class Frame:
                 opened += 1
                 self.bind_target(gen.target, self.elem_of(it))
                 for cond in gen.ifs:
-                    reads = pure_of(reads, self.eval(cond))
+                    reads = ref_of(reads, self.eval(cond))
             if isinstance(node, ast.DictComp):
                 e = merge(self.eval(node.key), self.eval(node.value))
             else:
@@ -762,6 +804,8 @@ class Frame:
             vals = [self.eval(node.left)] + [self.eval(c) for c in node.comparators]
             if all(isinstance(o, (ast.Is, ast.IsNot)) for o in node.ops):
                 return ref_of(*vals)
+            if all(isinstance(o, (ast.In, ast.NotIn)) for o in node.ops) and isinstance(node.left, ast.Constant):
+                return ref_of(*vals)        # key membership: the container's keys, not its values' content
             return pure_of(*vals)
         if isinstance(node, ast.Starred):
             return self.eval(node.value)
@@ -858,7 +902,7 @@ class Frame:
                         known = False       # a primitive / pure value is not an instance of a splink class
                     m.sbool = known
                 return m
-            if name in ("hasattr", "callable", "type", "id") and name not in self.g:
+            if name in ("hasattr", "callable", "type", "id", "isinstance", "issubclass", "len", "bool") and name not in self.g:
                 return ref_of(*allargs)
             if name in PURE_BUILTINS and name not in self.g:
                 m = pure_of(*allargs)
@@ -955,13 +999,17 @@ def analyse(cls, entry: str, samples, dialect_classes):
     types = {p: cs for p, cs in types.items() if cs}
     an = Analyser(types, dialect_classes, rawtypes)
     selfv = V(aliases={""}, classes={cls})
-    argv = V(arg=True)
+    argv = V(arg=True, classes=set(dialect_classes) if entry == "create_sql" else None)
     raw = inspect.getattr_static(cls, entry)
     fn = raw.__func__ if isinstance(raw, (staticmethod, classmethod)) else raw
-    ret = an.inline(fn, [selfv, argv], {})
-    ret = pure_of(ret)
+    _AN[0] = an
+    try:
+        ret = an.inline(fn, [selfv, argv], {})
+        ret = pure_of(ret)      # the returned object is consumed as a whole (observed at the end)
+    finally:
+        _AN[0] = None
     prog = an.blocks[0]
-    return {"program": prog, "out_reads": sorted(ret.reads), "out_arg": ret.arg, "unknown": an.unknown,
+    return {"program": prog, "out_reads": [], "out_arg": ret.arg, "unknown": an.unknown,
             "inlined": sorted(an.inlined), "assumed_pure": sorted(an.assumed_pure)}
 
 
@@ -971,8 +1019,9 @@ def written_paths(prog, acc=None):
     for st in prog:
         if st[0] in ("set", "mut"):
             acc.add(st[1])
-        else:
+        elif st[0] == "if":
             written_paths(st[3], acc)
+            written_paths(st[4], acc)
     return acc
 
 
@@ -1007,13 +1056,31 @@ def close_reads(reads, W, target=None):
     return sorted(out)
 
 
-def closed_program(prog, W):
-    out = []
+OUT = "$observed"     # the log of everything the call reads: its result is a function of it and of the argument
+
+
+def closed_program(prog, W, top=True):
+    """close the reads, keep only observations of written paths (reads of never-written attributes
+    cannot differ between calls), drop empty conditionals"""
+    out = [("set", OUT, [], False)] if top else []
     for st in prog:
         if st[0] in ("set", "mut"):
-            out.append((st[0], st[1], close_reads(st[2], W, st[1]), st[3]))
+            out.append((st[0], st[1], [r for r in close_reads(st[2], W, st[1]) if r in W], st[3]))
+        elif st[0] == "obs":
+            rs = [r for r in close_reads(st[1], W) if r in W]
+            if rs:
+                if out and out[-1][0] == "set" and out[-1][1] == OUT and out[-1][2] and out[-1][2][0] == OUT:
+                    merged = sorted(set(out[-1][2][1:]) | set(rs))
+                    out[-1] = ("set", OUT, [OUT] + merged, False)
+                else:
+                    out.append(("set", OUT, [OUT] + rs, False))
         else:
-            out.append(("if", close_reads(st[1], W), st[2], closed_program(st[3], W)))
+            body, orelse = closed_program(st[3], W, False), closed_program(st[4], W, False)
+            cond = [r for r in close_reads(st[1], W) if r in W]
+            if body or orelse:
+                out.append(("if", cond, st[2], body, orelse))
+            elif cond:
+                out.append(("set", OUT, [OUT] + cond, False))
     return out
 
 
@@ -1035,10 +1102,12 @@ def aexpr(tag, reads, arg):
 def prog_to_coq(prog):
     items = []
     for st in prog:
+        if st[0] == "obs":
+            continue
         if st[0] == "set":
             items.append(f"SSet {cstr(st[1])} {aexpr('f', st[2], st[3])}")
         elif st[0] == "mut":
             items.append(f"SMutate {cstr(st[1])} {aexpr('f', st[2], st[3])}")
         else:
-            items.append(f"SIf {aexpr('c', st[1], st[2])} {prog_to_coq(st[3])}")
+            items.append(f"SIf {aexpr('c', st[1], st[2])} {prog_to_coq(st[3])} {prog_to_coq(st[4])}")
     return "[" + "; ".join(items) + "]"
